@@ -14,7 +14,7 @@ proofs:
 
 # (both steps only when their inputs are newer than their outputs, and the driver is replaced atomically: checks may run side by side)
 extract: proofs
-	cd ocaml && if [ ! -f model.ml ] || [ model.ml -ot ../coq/Extract/Extract.vo ] || [ model.ml -ot ../coq/Extract/Extract.v ]; then \
+	cd ocaml && if [ ! -f model.ml ] || [ model.ml -ot ../coq/Extract/Extract.v ] || [ -n "$$(find ../coq -name '*.vo' -newer model.ml -not -path '*/Props/*' -not -path '*/Proofs/*' | head -1)" ] || [ -n "$$(find ../coq/Proofs -name 'TreeP.vo' -newer model.ml | head -1)" ]; then \
 	  timeout 600 coqc -Q ../coq Sftp ../coq/Extract/Extract.v >/dev/null && rm -f model.mli && touch model.ml; fi
 
 driver: extract
